@@ -5,8 +5,11 @@ package shardh
 
 import (
 	"context"
+	"encoding/binary"
 	"encoding/hex"
 	"fmt"
+	"github.com/golang/snappy"
+	"io"
 	"math"
 	"os"
 	"path/filepath"
@@ -34,6 +37,9 @@ type H struct {
 
 	held     *Gate      // a cache snapshot held between "written" and "installed"
 	heldDone chan error // its WriteSnapshot call
+
+	crashes int      // number of crash images taken so far
+	OldDirs []string // directories abandoned by crashes (removed by Cleanup)
 }
 
 const DB, RP = "db0", "rp0"
@@ -645,6 +651,177 @@ func (h *H) DropMeasurement(meas string) string {
 	return "ok"
 }
 
+// ---- crash images -----------------------------------------------------------------------
+
+func copyTree(src, dst string) error {
+	return filepath.Walk(src, func(p string, info os.FileInfo, err error) error {
+		if err != nil {
+			if os.IsNotExist(err) { // a file removed while we walk: it is not in the image
+				return nil
+			}
+			return err
+		}
+		rel, _ := filepath.Rel(src, p)
+		target := filepath.Join(dst, rel)
+		if info.IsDir() {
+			return os.MkdirAll(target, 0o755)
+		}
+		if !info.Mode().IsRegular() {
+			return nil
+		}
+		in, err := os.Open(p)
+		if err != nil {
+			if os.IsNotExist(err) {
+				return nil
+			}
+			return err
+		}
+		defer in.Close()
+		out, err := os.Create(target)
+		if err != nil {
+			return err
+		}
+		defer out.Close()
+		_, err = io.Copy(out, in)
+		return err
+	})
+}
+
+// image copies the shard's whole directory tree as it is on disk right now: what a process
+// kill leaves behind (everything written so far reached the disk).
+func (h *H) image() (string, error) {
+	h.crashes++
+	dst := fmt.Sprintf("%s.crash%d", strings.TrimRight(h.rootDir(), "/"), h.crashes)
+	os.RemoveAll(dst)
+	return dst, copyTree(h.Dir, dst)
+}
+
+func (h *H) rootDir() string {
+	if i := strings.Index(h.Dir, ".crash"); i > 0 {
+		return h.Dir[:i]
+	}
+	return h.Dir
+}
+
+// newestWAL returns the newest WAL segment file of the shard inside root (or "").
+func newestWAL(root string) string {
+	files, _ := filepath.Glob(filepath.Join(root, "wal", DB, RP, fmt.Sprint(ShardID), "_*.wal"))
+	sort.Strings(files)
+	if len(files) == 0 {
+		return ""
+	}
+	return files[len(files)-1]
+}
+
+// tornEntry is the encoding of a WAL write entry that was never acknowledged.
+func tornEntry(seed int) []byte {
+	vals := map[string][]tsm1.Value{}
+	for i := 0; i < 1+seed%3; i++ {
+		key := fmt.Sprintf("torn,host=t%d#!~#n", i)
+		for j := 0; j < 1+seed%5; j++ {
+			vals[key] = append(vals[key], tsm1.NewIntegerValue(int64(1600000000000000000+j*1000), int64(seed)))
+		}
+	}
+	e := &tsm1.WriteWALEntry{Values: vals}
+	b, err := e.Encode(nil)
+	if err != nil {
+		return nil
+	}
+	c := snappy.Encode(nil, b)
+	out := []byte{byte(tsm1.WriteWALEntryType), 0, 0, 0, 0}
+	binary.BigEndian.PutUint32(out[1:5], uint32(len(c)))
+	return append(out, c...)
+}
+
+// switchTo abandons the running store (the "killed" process) and restarts on the image.
+func (h *H) switchTo(img string) string {
+	old := h.Dir
+	h.Close() // the old process' state is irrelevant from here on; closing it only frees resources
+	h.OldDirs = append(h.OldDirs, old)
+	h.Dir = img
+	if err := h.Open(); err != nil {
+		return "err:restart:" + strings.ReplaceAll(err.Error(), " ", "_")
+	}
+	if h.Shard() == nil {
+		return "err:restart:shard_missing"
+	}
+	return "ok"
+}
+
+// Crash takes a crash image now and restarts on it. mode: clean | torn <k> | garbage <n> |
+// zeros <n>; the last three damage the tail of the newest WAL segment the way an interrupted,
+// never acknowledged append does.
+func (h *H) Crash(mode string, n int) string {
+	h.SnapRelease()
+	img, err := h.image()
+	if err != nil {
+		return "err:image:" + strings.ReplaceAll(err.Error(), " ", "_")
+	}
+	if mode != "clean" {
+		if w := newestWAL(img); w != "" {
+			var tail []byte
+			switch mode {
+			case "torn":
+				e := tornEntry(n)
+				k := 1 + n%(len(e)-1) // a proper prefix
+				tail = e[:k]
+			case "garbage":
+				tail = make([]byte, 1+n%40)
+				x := uint32(n)*2654435761 + 1
+				for i := range tail {
+					x = x*1664525 + 1013904223
+					tail[i] = byte(x >> 24)
+				}
+			case "zeros":
+				tail = make([]byte, 1+n%64)
+			}
+			f, err := os.OpenFile(w, os.O_WRONLY|os.O_APPEND, 0o644)
+			if err == nil {
+				f.Write(tail)
+				f.Close()
+			}
+		}
+	}
+	return h.switchTo(img)
+}
+
+// CrashAt runs op (snap | compact ... | del ...) and takes the crash image when the engine
+// reaches the named step; the op then completes in the old process, which is abandoned.
+func (h *H) CrashAt(point string, op string) string {
+	h.SnapRelease()
+	g := h.Arm(point)
+	done := make(chan string, 1)
+	go func() { done <- h.Step(op) }()
+	var img string
+	var err error
+	select {
+	case <-g.Reached:
+		img, err = h.image()
+		close(g.Release)
+		<-done
+	case <-done:
+		// the step was not reached (nothing to do for the op): crash right after it
+		h.disarm(point)
+		img, err = h.image()
+	case <-time.After(60 * time.Second):
+		return "HANG:" + point
+	}
+	if err != nil {
+		return "err:image:" + strings.ReplaceAll(err.Error(), " ", "_")
+	}
+	return h.switchTo(img)
+}
+
+// Cleanup removes the directories abandoned by crashes and the current one.
+func (h *H) Cleanup() {
+	for _, d := range h.OldDirs {
+		os.RemoveAll(d)
+	}
+	if strings.Contains(h.Dir, ".crash") {
+		os.RemoveAll(h.Dir)
+	}
+}
+
 // ---- schedule control through the engine's verif points -----------------------------------
 
 type Gate struct {
@@ -818,6 +995,20 @@ func (h *H) Step(op string) (out string) {
 		default:
 			return "err"
 		}
+	case "crash":
+		n := 0
+		if len(f) > 2 {
+			n = int(i64(f[2]))
+		}
+		return h.Crash(f[1], n)
+	case "crashat":
+		// crashat <point> <op...>; a delete interrupted by the crash is completed after the
+		// restart so that the state is determinate again
+		r := h.CrashAt(f[1], strings.Join(f[2:], " "))
+		if r == "ok" && (f[2] == "del" || f[2] == "dropm") {
+			return h.Step(strings.Join(f[2:], " "))
+		}
+		return r
 	case "snap":
 		return h.Snapshot()
 	case "snaphold":
